@@ -7,6 +7,6 @@ c_LeafKinds == {"tensor"}
 c_OpSet == {"outerprod", "rsum"}
 c_LogLeaves == FALSE
 c_EmitMod == 4
-c_EmitRes == 1
+c_EmitRes == 0
 c_PosLeaves == FALSE
 ====
